@@ -3,6 +3,7 @@ import Pcore.Proofs.ObjectSchema
 import Pcore.Proofs.ObjectInitHash
 import Pcore.Proofs.ObjectClosure
 import Pcore.Model.ObjectParams
+import Pcore.Proofs.ObjectAsg
 import Pcore.Generated.ObjectSchema
 import Mathlib.Data.List.Perm.Subperm
 /-!
@@ -81,6 +82,9 @@ Full statement / proved / missing
                          `C17x_inithash_partial` for every instance whose bindings are those of its own init-hash (`ExtOK`),
                          which every positional construction is (`C17x_extOK_pos`).  Missing: `IsInstance` of a
                          parameterized type `T[p => v]` itself (implementation-only `@tparam`).
+* `C17_asg_sound`      — proved: the assignability of the override check (`asg`, the model of GuardedIsAssignable on the alphabet) is
+                         sound for `inst`; `C17_override_sound`: in every accepted definition an overriding attribute admits
+                         only values the overridden declaration admits (inheritance coheres attribute by attribute).
 * the attribute-type alphabet is Integer, String, Boolean, Float, Any, Undef, Optional[T], NotUndef[T], Variant[A,B], Array[T]
   (`inst`, `asg`, `tyInit` tied to pcore by the ops `tinst` / `asg` on every pair of 85 type expressions).
 * missing altogether: functions, annotations (implementation-only streams `@objd`, `@iface`, `@ifacex`, `@fnover`),
@@ -802,6 +806,54 @@ theorem C17_assignable_closure {ds : List Def} {env : List OType} (h : defineAll
     isAssignable ti tj = true ↔ Relation.ReflTransGen (parentRel ds) i j := by
   have hg : GoodEnv ds env := by simpa using defineAll_good goodEnv_nil h
   exact isAssignable_closure hg hi j tj hj
+
+/-! ### inheritance coheres at the attribute level: an override may only narrow -/
+
+/-- the assignability the override check uses (`asg`: types.go GuardedIsAssignable with the `IsAssignable` methods of the
+    alphabet's types) is SOUND for the instance relation: every instance of `b` is an instance of `a` -/
+theorem C17_asg_sound {a b : Ty} (h : asg a b = true) {v : Val} (hv : inst b v = true) : inst a v = true :=
+  asg_sound h hv
+
+theorem assertOverride_asg {parent : OType} {a pa : Attr} (ho : assertOverride parent a = .ok ())
+    (hf : findAttr parent a.name = some pa) : asg pa.ty a.ty = true := by
+  unfold assertOverride at ho
+  simp only [hf] at ho
+  split at ho
+  · cases ho
+  · split at ho
+    · cases ho
+    · split at ho
+      · cases ho
+      · rename_i hn
+        simpa using hn
+
+/-- every attribute of an accepted definition that overrides an inherited one admits only values the inherited
+    declaration admits: an instance of the subtype, read through an ancestor's declaration of the attribute, is well-typed
+    (the value of an overriding attribute — given, default or constant — is an instance of the overridden attribute's type) -/
+theorem C17_override_sound {env : List OType} {d : Def} {l : Level} {p : OType} (h : define env d = .ok (l :: p))
+    {a pa : Attr} (ha : a ∈ l.attrs) (hf : findAttr p a.name = some pa) {v : Val} (hv : inst a.ty v = true) :
+    inst pa.ty v = true := by
+  obtain ⟨-, -, attrs, hattrs, -, -, ht⟩ := define_parts h
+  have hl : l.attrs = attrs := by rw [(List.cons.inj ht).1]
+  have hp : p = parentOf env d := (List.cons.inj ht).2
+  rw [hl] at ha
+  obtain ⟨dd, -, -, ho⟩ := forall₂_right_mem (defineAttrs_iff.mp hattrs) a ha
+  rw [← hp] at ho
+  exact C17_asg_sound (assertOverride_asg ho hf) hv
+
+/-- hypotheses of `C17_asg_sound` / `C17_override_sound`: narrowing overrides the check admits (and one it refuses) -/
+example : asg (.opt .int) .int = true ∧ asg (.variant .int .undefT) (.opt .int) = true ∧
+    asg (.opt (.array (.opt .int))) (.array (.notUndef .int)) = true ∧ asg (.notUndef .any) (.opt .int) = false ∧
+    asg .int (.variant .int .str) = false := by decide
+def lvOptA : Level :=
+  { id := 0, attrs := [{ name := "a", ty := .opt .int, kind := .normal, value := some .undef }],
+    equality := none, includeType := true, serialization := none }
+def defNarrowA : Def :=
+  { parent := some 0, attrs := [{ name := "a", ty := .int, kind := .normal, dflt := some (.int 3), override := true }],
+    equality := .absent, includeType := none, serialization := none }
+example : ∃ l p, define [[lvOptA]] defNarrowA = .ok (l :: p) ∧
+    ∃ a ∈ l.attrs, ∃ pa, findAttr p a.name = some pa ∧ pa.ty = .opt .int ∧ a.ty = .int :=
+  ⟨_, _, rfl, _, List.mem_cons_self, _, rfl, rfl, rfl⟩
 
 /-! ### instances of types that declare TYPE PARAMETERS (Model/ObjectParams) -/
 
